@@ -983,6 +983,7 @@ class BaseDAGExecution(Generic[P, RVDAG]):
     xn_dict: Dict[Identifier, ExecNode] = field(init=False, default_factory=dict)
     executed: bool = False
     cached_nodes: List[ExecNode] = field(init=False, default_factory=list)
+    _cache_loaded: bool = field(init=False, default=False)
 
     profiles: Dict[Identifier, Profile] = field(init=False, default_factory=dict)
 
@@ -1029,7 +1030,7 @@ class BaseDAGExecution(Generic[P, RVDAG]):
         Before the DAG is executed, the results are the same as the underlying DAG. This also includes before/after setup.
         After Execution, the results have been enriched with all the ExecNodes' results.
         """
-        if self.executed:
+        if self.executed or self._cache_loaded:
             return self._results
         return self.dag.results
 
@@ -1067,8 +1068,13 @@ class BaseDAGExecution(Generic[P, RVDAG]):
         if self.from_cache:
             with open(self.from_cache, "rb") as f:
                 cached_results = pickle.load(f)  # noqa: S301
-            for node in self.cached_nodes:
-                self.results = cached_results[node.id]
+            # cached results count as already computed: the scheduler prunes the corresponding ExecNodes
+            results = StrictDict(self.dag.results)
+            for node_id, result in cached_results.items():
+                if node_id in self.dag.exec_nodes:
+                    results.force_set(node_id, result)
+            self.results = results
+            self._cache_loaded = True
 
     def _post_call(self) -> RVDAG:
         # mark as executed. Important for the next step
